@@ -65,6 +65,7 @@ def run(ctx):
         if r.get("err") in ("other", "invalid_arg") and not camp.stim[r["id"]].get("null"):
             info = camp.describe(r["id"])
             ctx.violation(codec.signature(PROP, "hist.rc_documented", info), "undocumented error code on %s" % info["target"], {k: v for k, v in info.items()})
+    override_campaign(ctx)
     rej = camp.judge()
     codec.report(camp, ctx, rej, PROP, extra_owner=OWN,
                  also=lambda clause, info: clause in ("ser.guard", "ser.bad_len", "ser.bad_tag", "ser.too_small") or (clause.startswith("des.") and info.get("prior")))
@@ -77,7 +78,96 @@ def run(ctx):
                        "fresh, a poisoned and a reused object; distinct = (event, target, type shape, construction, prior, stimulus hash)")
     ctx.assumptions += ["memory safety is observed by the sanitizer runtimes, not decided by the model", "clang 14 sanitizers", "poisoned C++ objects are objects that "
                         "first decoded a junk buffer (non-trivial types cannot be memset)"]
-    ctx.not_exercised("enable_override_variable_array_capacity with user-reduced capacities (see DESIGN §8 D10)")
+
+
+def override_campaign(ctx):
+    """the documented per-field capacity override (C option enable_override_variable_array_capacity): the user compiles with a REDUCED
+    <type>_<field>_ARRAY_CAPACITY_; the object then has that capacity and the codec must behave like the type with cap := k (wire prefix unchanged)"""
+    import copy
+
+    d = codec.dsdl
+    rng = ctx.rng
+    elems = [d.U(8), d.I(13), d.B(), d.F(16), d.S([d.U(8), d.I(5)])]
+    types, reduced = [], []
+    for e in elems:
+        for cap in ((4, 9) if ctx.quick else (4, 9, 40, 300)):
+            if cap == 300 and d.is_comp(e):
+                continue
+            t = d.S([d.U(3), d.VA(copy.deepcopy(e), cap), d.U(8)])
+            types.append(t)
+            reduced.append(rng.choice([1, 2, cap - 1]))
+    flags = ["-D@NS@_T%d_1_0_f1_ARRAY_CAPACITY_=%dU" % (_tname(types, i), k) for i, k in enumerate(reduced)]
+    sp = codec.spec("c", "c/override-capacity", {"enable_override_variable_array_capacity": True}, True, flags=flags)
+    camp = codec.Campaign(ctx, types, [sp], with_py=False, batch=len(types))
+    camp.build()
+    codec.report_gen_failures(camp, ctx, PROP)
+    cases, dcases = [], []
+    for ti, t in enumerate(types):
+        cap, k = t["fields"][1]["cap"], reduced[ti]
+        for n in sorted({0, 1, k, k + 1, cap}):
+            if n > cap:
+                continue
+            # object side: the struct only has k elements; a count above k is an invalid object
+            e = t["fields"][1]["e"]
+            vals = [d.rand_value(rng, e) for _ in range(min(n, k))]
+            v = [rng.randrange(8), vals if n <= k else ("badcount", n, vals), rng.randrange(256)]
+            cases.append({"ti": ti, "v": v, "klass": "override" if n <= k else "override-count-above-reduced-capacity", "case": camp.new_case()})
+            # wire side: a message announcing n elements
+            t_wire = t
+            enc = _encode_count(t_wire, n, rng)
+            dcases.append({"ti": ti, "data": enc, "why": "override" if n <= k else "override-count-above-reduced-capacity", "case": camp.new_case(), "priors": (1,)})
+    out = camp.ser_events(cases, buf_of=lambda c, need: need)
+    res = camp.des_events(dcases)
+    for info, r in list(out.get("crash", [])) + list(res.get("crash", [])):
+        t = camp.types[info["ti"]]
+        info = dict(info, descr=t, type=d.shape(t))
+        ctx.violation("C04|c|override-capacity|hist.noret.sanitizer|%s" % (info.get("klass") or info.get("why")),
+                      "call did not return with a reduced array capacity: %s" % _first_line(r.get("crash", "")),
+                      {k: v for k, v in info.items() if k != "descr"})
+    # judge against the type whose object capacity is the reduced one
+    for r in camp.records:
+        ti = camp.stim[r["id"]]["ti"]
+        r["t"]["fields"][1]["cap"] = reduced[ti]
+    rej = camp.judge()
+    for rid, clause in sorted(rej.items()):
+        info = camp.describe(rid)
+        klass = info.get("klass") or info.get("why")
+        elem = d.shape(info["descr"]["fields"][1]["e"])
+        sig = "C04|c|override-capacity|%s|%s" % (clause, klass)
+        ctx.violation(sig, "%s with user-reduced array capacity (element %s, DSDL capacity %d reduced to %d): the generated code compares the count with the DSDL capacity literal"
+                      % (clause, elem, info["descr"]["fields"][1]["cap"], reduced[info["ti"]]),
+                      {"ev": info["ev"], "target": "c/override-capacity", "type": info["type"], "reduced_to": reduced[info["ti"]], "stimulus": {k: v for k, v in info.items() if k in ("v", "data", "why", "klass")}})
+    for r in camp.records:
+        ctx.distinct("override|%s|%s|%s" % (r["ev"], camp.stim[r["id"]]["ti"], camp.stim[r["id"]].get("klass") or camp.stim[r["id"]].get("why")))
+    ctx.cov["override_capacity_records"] = len(camp.records)
+
+
+def _tname(types, i):
+    # TypeSet names composites in order of first appearance, nested ones first
+    n = 0
+    for j, t in enumerate(types):
+        if codec.dsdl.is_comp(t["fields"][1]["e"]):
+            n += 1
+        if j == i:
+            return n
+        n += 1
+    return n
+
+
+def _encode_count(t, n, rng):
+    """bytes of a message of type S(u3, T[<=cap], u8) announcing n elements (element content random)"""
+    d = codec.dsdl
+    arr = t["fields"][1]
+    pw = d.prefix_w(arr["wcap"])
+    bits = [rng.getrandbits(1) for _ in range(3)]
+    if d.is_comp(arr["e"]):
+        bits += [0] * 5
+    bits += [(n >> i) & 1 for i in range(pw)]
+    ew = d.max_bits_field(arr["e"])
+    bits += [rng.getrandbits(1) for _ in range(n * ew + 8)]
+    while len(bits) % 8:
+        bits.append(0)
+    return bytes(sum(bits[i + j] << j for j in range(8)) for i in range(0, len(bits), 8))
 
 
 def _first_line(s):
